@@ -71,7 +71,7 @@ Record ss_state := {
   s_seq : N;                (* sequence_number *)
   s_rb : buf;               (* read buffer: the packet being sent / awaiting its ACK *)
   s_wb : buf;               (* write buffer: the packet being collected from the stream *)
-  s_pos : N;                (* send_position (words) *)
+  s_pos : N;                (* send_position (words); an 11-bit counter here (LUNA: bits_for(max_packet_size)) *)
   s_lpz : bool;             (* last_packet_was_zlp *)
   s_erdy : bool;            (* erdy_required *)
   s_ov : N; s_of : bool; s_ol : bool; s_op : N   (* registered tx stream: valid, first, last, payload *)
@@ -90,7 +90,8 @@ Section Endpoint.
   Definition wb_after (st : ss_state) (i : N) : buf :=
     let b := s_wb st in
     if wr_en st i then
-      {| b_words := b_words b ++ [i_payload i]; b_fill := b_fill b + nbytes (i_valid i);
+      {| b_words := firstn (N.to_nat (b_fill b / 4)) (b_words b) ++ [i_payload i];   (* written at address fill >> 2 *)
+         b_fill := b_fill b + nbytes (i_valid i);
          b_ended := b_ended b || i_last i |}
     else b.
   (* the stream word of this cycle ends the packet being collected *)
@@ -141,7 +142,7 @@ Section Endpoint.
         else upd st WAIT_TO_SEND (s_seq st) rb wb' (s_pos st) (s_lpz st) (s_erdy st) (s_ov st) (s_of st) (s_ol st) (s_op st)
     | SEND_PACKET =>
         if tx_free st i then
-          upd st (if last_word st then WAIT_FOR_ACK else SEND_PACKET) (s_seq st) rb wb' (s_pos st + 1)
+          upd st (if last_word st then WAIT_FOR_ACK else SEND_PACKET) (s_seq st) rb wb' ((s_pos st + 1) mod 2048)
               (s_lpz st) (s_erdy st)
               (if last_word st then vmask (if b_fill rb mod 4 =? 0 then 4 else b_fill rb mod 4) else 15)
               (s_pos st =? 0) (last_word st) (nth (N.to_nat (s_pos st)) (b_words rb) 0)
@@ -393,6 +394,27 @@ Section Accept.
     end.
 End Accept.
 
+(* the referee over a recorded interface trace (packed input word, packed output word per cycle) *)
+Fixpoint ref_accepts_io (mps ep sb : N) (r : ref_state) (ios : list (N * N)) : bool :=
+  match ios with
+  | [] => true
+  | (i, o) :: t => match ref_step mps ep sb r i (unpack_out o) with
+                   | None => true
+                   | Some (r', ok) => ok && ref_accepts_io mps ep sb r' t
+                   end
+  end.
+
+(* the referee's state after a recorded trace; None = the environment broke its contract (or the referee
+   rejected) on the way -- used to show that the contract is satisfiable and what the referee has seen *)
+Fixpoint ref_run_io (mps ep sb : N) (r : ref_state) (ios : list (N * N)) : option ref_state :=
+  match ios with
+  | [] => Some r
+  | (i, o) :: t => match ref_step mps ep sb r i (unpack_out o) with
+                   | Some (r', true) => ref_run_io mps ep sb r' t
+                   | _ => None
+                   end
+  end.
+
 (* ------------------------------------------------------------------------------------------ *)
 (* 4. Packed forms (for the harness: monitors and lock-step models work on N-coded states).
    Fields are bit fields (shift / mask only: these run inside vm_compute for every explored step).  *)
@@ -490,11 +512,13 @@ Definition PB : N := 2864434397.    (* 0xAABBCCDD *)
 (* stream side: (valid, last, payload).
    profile 0 ("control"): every valid mask, payload word 0;
    profile 1 ("data"): full words only, the payload word tells the position it is written to;
-   profile 2: every valid mask and position-telling payload words *)
+   profile 2: every valid mask and position-telling payload words;
+   profile 3 ("control, light"): masks 1111 and 0011 only, payload word 0 *)
 Definition alpha_stream (prof : N) (st : ss_state) : list (N * bool * N) :=
-  let p := match prof with 0 => 0 | _ => if b_fill (s_wb st) =? 0 then PA else PB end in
+  let p := match prof with 0 | 3 => 0 | _ => if b_fill (s_wb st) =? 0 then PA else PB end in
   match prof with
   | 1 => [(0, false, 0); (15, false, p); (15, true, p)]
+  | 3 => [(0, false, 0); (15, false, 0); (15, true, 0); (3, true, 0)]
   | _ => [(0, false, 0); (15, false, p); (15, true, p); (1, true, p); (3, true, p); (7, true, p)]
   end.
 
